@@ -246,9 +246,9 @@ class Explorer:
         # the same condition decided earlier on this path (e.g. the fresh-estimator twin of a history run): same outcome
         key = cond.get_id()
         if key in self.known:
-            return self.known[key]
+            return self.known[key][1]
         out = self._decide(cond)
-        self.known[key] = out
+        self.known[key] = (cond, out)      # the term is kept alive: z3 ids are only unique among live terms
         return out
 
     def _decide(self, cond):
